@@ -32,6 +32,9 @@ PANIC_REVIEWED = {
 }
 
 
+PANIC_REVIEWED = {(short_fn(k[0]), k[1]): v for k, v in PANIC_REVIEWED.items()}
+
+
 def state_regions(nx):
     """arms of the `match &mut self.reader_state` (not of the mem::replace results)"""
     def flt(place):
@@ -306,7 +309,7 @@ def panics(ctx):
                 # [u8; N] conversions of a slice just obtained with a constant length
                 pass
             if why is None:
-                key = (fl, kind)
+                key = (short_fn(fl), kind)
                 if key in PANIC_REVIEWED and used.get(key, 0) < PANIC_REVIEWED[key][0]:
                     used[key] = used.get(key, 0) + 1
                     why = 'reviewed: ' + PANIC_REVIEWED[key][1]
